@@ -265,6 +265,11 @@ def build_tasks(tier):
                   b'a STATUS INBOX (MESSAGES)\r\n', b'a SELECT INBOX\r\n']
         for ch in chunks(lines, 40):
             T.append(('hostile-env', env, 'imap', ch))
+        # on maildir the other session's change removes real files the
+        # victim's cached view still refers to
+        if env != 'selected/inbox-renamed':
+            for ch in chunks(lines, 20):
+                T.append(('hostile-env', env + '@++', 'imap', ch))
     # (c) single-point mutations of every valid line
     for st, line in E.valid_lines():
         base = b'a ' + line + b'\r\n'
